@@ -57,7 +57,7 @@ FLOORS = {
         "programs_with_int_or_bool_values": 1000, "jvp_agree": 4000, "grad_agree": 3000,
     },
 }
-TIMEOUT_S = {"quick": 2700, "thorough": 7200}  # watchdog only (idle 16 cores: ~1 min / ~11 min)
+TIMEOUT_S = {"quick": 2700, "thorough": 10800}  # watchdog only (idle 16 cores: ~1 min / ~11 min)
 CASE_BUDGET_S = 60
 
 ULPS = 64
